@@ -6,7 +6,6 @@ import (
 	"fmt"
 	"io"
 	"math"
-	"strconv"
 	"strings"
 	"sync"
 	"sync/atomic"
@@ -248,31 +247,48 @@ func timeoutFromHeaders(headers metadata.MD) (time.Duration, bool) {
 	if len(vals) == 0 {
 		return 0, false
 	}
-	timeoutStr := vals[len(vals)-1]
-	if len(timeoutStr) < 2 {
+	return decodeTimeout(vals[len(vals)-1])
+}
+
+// decodeTimeout decodes a grpc-timeout header value as defined by the gRPC
+// wire protocol: a positive integer of at most 8 ASCII digits followed by a
+// one-character unit. Values too large to be represented are clamped to the
+// maximum duration. The boolean is false if the value is malformed.
+func decodeTimeout(timeoutStr string) (time.Duration, bool) {
+	size := len(timeoutStr)
+	if size < 2 || size > 9 {
 		return 0, false
 	}
-	timeout, err := strconv.Atoi(timeoutStr[:len(timeoutStr)-1])
-	if err != nil {
-		return 0, false
-	}
-	duration := time.Duration(timeout)
-	switch timeoutStr[len(timeoutStr)-1] {
+	var unit time.Duration
+	switch timeoutStr[size-1] {
 	case 'H':
-		return duration * time.Hour, true
+		unit = time.Hour
 	case 'M':
-		return duration * time.Minute, true
+		unit = time.Minute
 	case 'S':
-		return duration * time.Second, true
+		unit = time.Second
 	case 'm':
-		return duration * time.Millisecond, true
+		unit = time.Millisecond
 	case 'u':
-		return duration * time.Microsecond, true
+		unit = time.Microsecond
 	case 'n':
-		return duration * time.Nanosecond, true
+		unit = time.Nanosecond
 	default:
 		return 0, false
 	}
+	var timeout uint64
+	for i := 0; i < size-1; i++ {
+		ch := timeoutStr[i]
+		if ch < '0' || ch > '9' {
+			return 0, false
+		}
+		timeout = timeout*10 + uint64(ch-'0')
+	}
+	if timeout > uint64(math.MaxInt64)/uint64(unit) {
+		// too large to represent: effectively infinite
+		return time.Duration(math.MaxInt64), true
+	}
+	return time.Duration(timeout) * unit, true
 }
 
 func (s *tunnelServer) getStream(streamID int64) (*tunnelServerStream, error) {
